@@ -279,7 +279,12 @@ func (em *emitter) emitPackage(pkg *ast.Package, extendingFile bool, path string
 				}
 			}
 			em.prepareFunctionBodyParameters(n)
+			// The body of a function is not part of the URL that is being
+			// emitted when the function is emitted.
+			inURL, isURLSet := em.inURL, em.isURLSet
+			em.inURL, em.isURLSet = false, false
 			em.emitNodes(n.Body.Nodes)
+			em.inURL, em.isURLSet = inURL, isURLSet
 			em.fb.end()
 			em.fb.exitScope()
 			em.alreadyEmittedFuncs[n] = fn
